@@ -129,7 +129,7 @@ func berVariants(x *mon.Ctx) {
 		var check func(msg []byte) error // nil error = parses and yields the same content
 		switch kind {
 		case "signed":
-			s := genSigned(c.R, c.R.Intn(1000), sweepLens)
+			s := genSigned(c.R, c.R.Intn(1000), sweepLens, false)
 			if s.api == "cfca" {
 				s.api = "pkcs7"
 			}
